@@ -11,12 +11,32 @@ def wopts? (s : String) : Option WOpts :=
   | [a, b, c, d, e, f, g, h, i] => some ⟨a, b, c, d, e, f, g, h, i⟩
   | _ => none
 
-/-- `pu rooting sint sleaf stw`, rooting a digit 0..4 -/
-def ropts? (s : String) : Option ROpts :=
-  match s.toList with
-  | [a, r, c, d, e] =>
-    if '0' ≤ r ∧ r ≤ '4' then some ⟨a == '1', r.toNat - '0'.toNat, c == '1', d == '1', e == '1'⟩ else none
-  | _ => none
+/-- case map handed over by the harness: `str.lower` on the characters that occur (pairs `c`,`lower c`; others map to themselves) -/
+def caseMap? (s : String) : Option (Char → Char) :=
+  if s == "-" then some id else
+  match (s.splitOn ",").mapM (fun x => (decodeStr x).bind id) with
+  | none => none
+  | some strs =>
+    let rec pairs : List String → Option (List (Char × Char))
+      | [] => some []
+      | a :: b :: r => match a.toList, b.toList with
+        | [x], [y] => (pairs r).map ((x, y) :: ·)
+        | _, _ => none
+      | _ => none
+    (pairs strs).map (fun ps c => match ps.find? (fun p => p.1 == c) with | some p => p.2 | none => c)
+
+/-- `pu rooting sint sleaf stw`, rooting a digit 0..4; plus the case map -/
+def ropts? (s : String) (cm : String) : Option ROpts :=
+  match s.toList, caseMap? cm with
+  | [a, r, c, d, e], some cf =>
+    if '0' ≤ r ∧ r ≤ '4' then some ⟨a == '1', r.toNat - '0'.toNat, c == '1', d == '1', e == '1', cf⟩ else none
+  | _, _ => none
+
+/-- the reader, re-run with a lot of extra fuel: a different outcome means fuel ran out (never reported as `ERR`) -/
+def readChecked (o : ROpts) (m : Mapper) (text : Str) : String :=
+  let a := renderResult (parseText o m text)
+  let b := renderResult (parseTextK (8 * text.length + 64) o m text)
+  if a == b then a else "FUEL"
 
 /-- pre-order node records `k taxon label len` -/
 def tree? : Nat → List String → Option (NT × List String)
@@ -61,19 +81,21 @@ def handle (ws : List String) : String :=
     match str? text with
     | some (some s) =>
       let ts := tokenizeAll (pu == "1") s
+      let ts2 := tokenize (pu == "1") (2 * s.length + 8) s
+      if ts.ok != ts2.ok || ts.toks.length != ts2.toks.length then "FUEL" else
       " ".intercalate (ts.toks.flatMap showTok ++ [if ts.ok then (if ts.atEof then "EOF1" else "EOF0") else "ERR"])
     | _ => "bad-op"
   | "write" :: wo :: rooting :: weight :: tr =>
     match wopts? wo, rooting.toNat?, str? weight, tree? (tr.length + 1) tr with
     | some o, some r, some w, some (t, []) => hexS (writeTree o r w t)
     | _, _, _, _ => "bad-op"
-  | ["parse", ro, numbers, ns, tokmap, text] =>
-    match ropts? ro, strList? ns, (strList? tokmap).bind pairs?, str? text with
-    | some o, some ns, some tm, some (some s) => renderResult (parseText o ⟨tm, ns, numbers == "1"⟩ s)
+  | ["parse", ro, cm, numbers, ns, tokmap, text] =>
+    match ropts? ro cm, strList? ns, (strList? tokmap).bind pairs?, str? text with
+    | some o, some ns, some tm, some (some s) => readChecked o ⟨tm, ns, numbers == "1"⟩ s
     | _, _, _, _ => "bad-op"
-  | "rt" :: wo :: ro :: rooting :: weight :: tr =>
-    match wopts? wo, ropts? ro, rooting.toNat?, str? weight, tree? (tr.length + 1) tr with
-    | some o, some ro, some r, some w, some (t, []) => renderResult (parseText ro {} (writeTree o r w t ++ ['\n']))
+  | "rt" :: wo :: ro :: cm :: rooting :: weight :: tr =>
+    match wopts? wo, ropts? ro cm, rooting.toNat?, str? weight, tree? (tr.length + 1) tr with
+    | some o, some ro, some r, some w, some (t, []) => readChecked ro {} (writeTree o r w t ++ ['\n'])
     | _, _, _, _, _ => "bad-op"
   | _ => "bad-op"
 
